@@ -109,6 +109,12 @@ variable (v : View)
   simp [View.apply]
 @[simp] theorem sinks_len_sent (sid c : Nat) : (v.apply (.sent sid c)).sinks.length = v.sinks.length := by
   simp [View.apply]
+@[simp] theorem sinks_len_connecting (sid c : Nat) :
+    (v.apply (.connecting sid c)).sinks.length = v.sinks.length := by
+  simp [View.apply]
+@[simp] theorem calls_len_connecting (sid c : Nat) :
+    (v.apply (.connecting sid c)).calls.length = v.calls.length := by
+  simp [View.apply]
 @[simp] theorem sinks_len_queued (c : Nat) : (v.apply (.queued c)).sinks.length = v.sinks.length := rfl
 @[simp] theorem sinks_len_rel (sid : Nat) : (v.apply (.rel sid)).sinks.length = v.sinks.length := by
   simp [View.apply]
@@ -150,6 +156,12 @@ theorem isAlive_closed (sid j : Nat) :
                 simp [hj, this]
 
 theorem isAlive_sent (sid c j : Nat) : isAlive (v.apply (.sent sid c)) j = isAlive v j := by
+  simp only [isAlive, View.apply, List.getElem?_modify]
+  cases h : v.sinks[j]? with
+  | none => simp
+  | some k => by_cases hj : sid = j <;> simp [hj]
+
+theorem isAlive_connecting (sid c j : Nat) : isAlive (v.apply (.connecting sid c)) j = isAlive v j := by
   simp only [isAlive, View.apply, List.getElem?_modify]
   cases h : v.sinks[j]? with
   | none => simp
@@ -204,6 +216,24 @@ theorem holderOf_sent (sid c j : Nat) :
     · have : ¬ (j = sid ∧ sid < v.sinks.length) := by rintro ⟨rfl, _⟩; exact hj rfl
       simp [hj, this]
 
+theorem holderOf_connecting (sid c j : Nat) :
+    holderOf (v.apply (.connecting sid c)) j =
+      if j = sid ∧ sid < v.sinks.length then some c else holderOf v j := by
+  simp only [holderOf, View.apply, List.getElem?_modify]
+  cases h : v.sinks[j]? with
+  | none =>
+    have : ¬ j < v.sinks.length := by
+      intro hlt; simp [List.getElem?_eq_getElem hlt] at h
+    have : ¬ (j = sid ∧ sid < v.sinks.length) := by rintro ⟨rfl, h2⟩; exact this h2
+    simp [this]
+  | some k =>
+    have hlt : j < v.sinks.length := by
+      by_contra hc; simp at hc; simp [List.getElem?_eq_none hc] at h
+    by_cases hj : sid = j
+    · subst hj; simp [hlt]
+    · have : ¬ (j = sid ∧ sid < v.sinks.length) := by rintro ⟨rfl, _⟩; exact hj rfl
+      simp [hj, this]
+
 @[simp] theorem holderOf_queued (c j : Nat) : holderOf (v.apply (.queued c)) j = holderOf v j := rfl
 
 theorem holderOf_rel (sid j : Nat) :
@@ -221,62 +251,134 @@ theorem holderOf_rel (sid j : Nat) :
     holderOf (v.apply (.done c o)) j = holderOf v j := rfl
 
 /-! calls -/
-theorem calls_sent (sid c j : Nat) :
-    (v.apply (.sent sid c)).calls[j]? =
-      if j = c ∧ c < v.calls.length then some (.started sid) else v.calls[j]? := by
-  simp only [View.apply, List.getElem?_set]
+theorem getElem?_set_self' {α : Type} (l : List α) (c j : Nat) (a : α) :
+    (l.set c a)[j]? = if j = c ∧ c < l.length then some a else l[j]? := by
+  simp only [List.getElem?_set]
   by_cases hj : c = j
   · subst hj
-    by_cases hl : c < v.calls.length
+    by_cases hl : c < l.length
     · simp [hl]
-    · have : v.calls[c]? = none := by simp; omega
+    · have : l[c]? = none := by simp; omega
       simp [hl, this]
-  · have : ¬ (j = c ∧ c < v.calls.length) := by rintro ⟨rfl, _⟩; exact hj rfl
+  · have : ¬ (j = c ∧ c < l.length) := by rintro ⟨rfl, _⟩; exact hj rfl
     simp [hj, this]
+
+def sentStat (v : View) (sid c : Nat) : CStat :=
+  match v.calls[c]? with
+  | some (.orphan _) => .zombie sid
+  | _ => .started sid
+
+def doneStat (v : View) (c : Nat) : CStat :=
+  match v.calls[c]? with
+  | some (.connecting sid) => .orphan sid
+  | _ => .done
+
+def relStat (v : View) (c : Nat) : CStat :=
+  match v.calls[c]? with
+  | some (.zombie _) => .done
+  | _ => .released
+
+theorem calls_sent (sid c j : Nat) :
+    (v.apply (.sent sid c)).calls[j]? =
+      if j = c ∧ c < v.calls.length then some (sentStat v sid c) else v.calls[j]? := by
+  simp only [View.apply, getElem?_set_self']; rfl
+
+theorem calls_connecting (sid c j : Nat) :
+    (v.apply (.connecting sid c)).calls[j]? =
+      if j = c ∧ c < v.calls.length then some (.connecting sid) else v.calls[j]? := by
+  simp only [View.apply, getElem?_set_self']
 
 theorem calls_queued (c j : Nat) :
     (v.apply (.queued c)).calls[j]? =
       if j = c ∧ c < v.calls.length then some .pending else v.calls[j]? := by
-  simp only [View.apply, List.getElem?_set]
-  by_cases hj : c = j
-  · subst hj
-    by_cases hl : c < v.calls.length
-    · simp [hl]
-    · have : v.calls[c]? = none := by simp; omega
-      simp [hl, this]
-  · have : ¬ (j = c ∧ c < v.calls.length) := by rintro ⟨rfl, _⟩; exact hj rfl
-    simp [hj, this]
+  simp only [View.apply, getElem?_set_self']
 
 theorem calls_done (c : Nat) (o : Outcome) (j : Nat) :
     (v.apply (.done c o)).calls[j]? =
-      if j = c ∧ c < v.calls.length then some .done else v.calls[j]? := by
-  simp only [View.apply, List.getElem?_set]
-  by_cases hj : c = j
-  · subst hj
-    by_cases hl : c < v.calls.length
-    · simp [hl]
-    · have : v.calls[c]? = none := by simp; omega
-      simp [hl, this]
-  · have : ¬ (j = c ∧ c < v.calls.length) := by rintro ⟨rfl, _⟩; exact hj rfl
-    simp [hj, this]
+      if j = c ∧ c < v.calls.length then some (doneStat v c) else v.calls[j]? := by
+  simp only [View.apply, getElem?_set_self']; rfl
 
 theorem calls_rel (sid j : Nat) :
     (v.apply (.rel sid)).calls[j]? =
-      if holderOf v sid = some j ∧ j < v.calls.length then some .released else v.calls[j]? := by
+      if holderOf v sid = some j ∧ j < v.calls.length then some (relStat v j) else v.calls[j]? := by
   simp only [View.apply]
   cases hh : holderOf v sid with
   | none => simp
   | some c =>
-    simp only [List.getElem?_set]
-    by_cases hj : c = j
-    · subst hj
-      by_cases hl : c < v.calls.length
-      · simp [hl]
-      · have : v.calls[c]? = none := by simp; omega
-        simp [hl, this]
+    simp only [getElem?_set_self']
+    by_cases hj : j = c
+    · subst hj; simp only [true_and]; rfl
     · have : ¬ (some c = some j ∧ j < v.calls.length) := by
-        rintro ⟨h, _⟩; injection h with h; exact hj h
+        rintro ⟨h, _⟩; injection h with h; exact hj h.symm
+      have h2 : ¬ (j = c ∧ c < v.calls.length) := fun h => hj h.1
+      rw [if_neg h2, if_neg this]
+
+/-! the `opening` flag -/
+def openFlag (v : View) (sid : Nat) : Bool :=
+  match v.sinks[sid]? with
+  | some k => k.opening
+  | none => false
+
+theorem openFlag_created (sid : Nat) (ok : Bool) (j : Nat) :
+    openFlag (v.apply (.created sid ok)) j = openFlag v j := by
+  simp only [openFlag, View.apply, List.getElem?_append]
+  by_cases h : j < v.sinks.length
+  · simp [h]
+  · have h3 : v.sinks[j]? = none := by simp; omega
+    simp only [h, h3, if_false]
+    cases hh : j - v.sinks.length with
+    | zero => simp
+    | succ m => simp
+
+theorem openFlag_closed (sid j : Nat) : openFlag (v.apply (.closed sid)) j = openFlag v j := by
+  simp only [openFlag, View.apply, List.getElem?_modify]
+  cases h : v.sinks[j]? with
+  | none => simp
+  | some k => by_cases hj : sid = j <;> simp [hj]
+
+theorem openFlag_sent (sid c j : Nat) :
+    openFlag (v.apply (.sent sid c)) j = if j = sid then false else openFlag v j := by
+  simp only [openFlag, View.apply, List.getElem?_modify]
+  cases h : v.sinks[j]? with
+  | none => simp
+  | some k =>
+    by_cases hj : sid = j
+    · subst hj; simp
+    · have : ¬ j = sid := fun h => hj h.symm
       simp [hj, this]
+
+theorem openFlag_rel (sid j : Nat) :
+    openFlag (v.apply (.rel sid)) j = if j = sid then false else openFlag v j := by
+  simp only [openFlag, View.apply, List.getElem?_modify]
+  cases h : v.sinks[j]? with
+  | none => simp
+  | some k =>
+    by_cases hj : sid = j
+    · subst hj; simp
+    · have : ¬ j = sid := fun h => hj h.symm
+      simp [hj, this]
+
+theorem openFlag_connecting (sid c j : Nat) :
+    openFlag (v.apply (.connecting sid c)) j =
+      if j = sid ∧ sid < v.sinks.length then true else openFlag v j := by
+  simp only [openFlag, View.apply, List.getElem?_modify]
+  cases h : v.sinks[j]? with
+  | none =>
+    have : ¬ j < v.sinks.length := by
+      intro hlt; simp [List.getElem?_eq_getElem hlt] at h
+    have : ¬ (j = sid ∧ sid < v.sinks.length) := by rintro ⟨rfl, h2⟩; exact this h2
+    simp [this]
+  | some k =>
+    have hlt : j < v.sinks.length := by
+      by_contra hc; simp at hc; simp [List.getElem?_eq_none hc] at h
+    by_cases hj : sid = j
+    · subst hj; simp [hlt]
+    · have : ¬ (j = sid ∧ sid < v.sinks.length) := by rintro ⟨rfl, _⟩; exact hj rfl
+      simp [hj, this]
+
+@[simp] theorem openFlag_queued (c j : Nat) : openFlag (v.apply (.queued c)) j = openFlag v j := rfl
+@[simp] theorem openFlag_done (c : Nat) (o : Outcome) (j : Nat) :
+    openFlag (v.apply (.done c o)) j = openFlag v j := rfl
 
 end apply
 
@@ -311,6 +413,14 @@ theorem lentIds_len_sent (v : View) (sid c : Nat) (hfree : holderOf v sid = none
   · simp [hfree]
   · rw [holderOf_sent]; simp [hlt]
   · intro j hj; rw [holderOf_sent]; simp [hj]
+
+theorem lentIds_len_connecting (v : View) (sid c : Nat) (hfree : holderOf v sid = none) (hlt : sid < v.sinks.length) :
+    (lentIds (v.apply (.connecting sid c))).length = (lentIds v).length + 1 := by
+  rw [lentIds_def, lentIds_def, sinks_len_connecting]
+  apply length_ids_set_true hlt
+  · simp [hfree]
+  · rw [holderOf_connecting]; simp [hlt]
+  · intro j hj; rw [holderOf_connecting]; simp [hj]
 
 theorem lentIds_len_rel_lent (v : View) (sid c : Nat) (h : holderOf v sid = some c) :
     (lentIds v).length = (lentIds (v.apply (.rel sid))).length + 1 := by
@@ -355,13 +465,17 @@ structure Inv (cfg : Cfg) (h : Option Nat) (s : St) : Prop where
   wSorted : s.waiters.Pairwise (· < ·)
   wStat : ∀ c ∈ s.waiters, s.view.calls[c]? = some .pending ∨ s.view.calls[c]? = some .done
   pendW : ∀ c, s.view.calls[c]? = some .pending → c ∈ s.waiters
-  lentCall : ∀ sid c, holderOf s.view sid = some c → s.view.calls[c]? = some (.started sid)
-  startedLent : ∀ sid c, s.view.calls[c]? = some (.started sid) → holderOf s.view sid = some c
+  lentCall : ∀ sid c, holderOf s.view sid = some c →
+    ∃ st, s.view.calls[c]? = some st ∧ st.holds = some sid
+  startedLent : ∀ sid c st, s.view.calls[c]? = some st → st.holds = some sid → holderOf s.view sid = some c
+  openHeld : ∀ sid, openFlag s.view sid = true → (holderOf s.view sid).isSome = true
+  openConn : ∀ sid c, openFlag s.view sid = true → holderOf s.view sid = some c →
+    s.view.calls[c]? = some (.connecting sid) ∨ s.view.calls[c]? = some (.orphan sid)
   full : s.everClosed = false → s.waiters ≠ [] → cfg.max ≤ s.size
   closedFlag : s.pstate = .closed → s.everClosed = true
 
 theorem inv_init (cfg : Cfg) : Inv cfg none St.init := by
-  constructor <;> simp [St.init, held, St.view, lentIds, holderOf, isAlive]
+  constructor <;> simp [St.init, held, St.view, lentIds, holderOf, isAlive, openFlag]
 
 /-! ### moves of a connection between cache / hand-off queue / hand (no event) -/
 
@@ -524,16 +638,39 @@ theorem emit_closed {cfg : Cfg} {s : St} {h : Option Nat} (hi : Inv cfg h s) (si
   · intro c hc; rw [view_emit, calls_closed]; exact hi.wStat c hc
   · intro c hc; rw [view_emit, calls_closed] at hc; exact hi.pendW c hc
   · intro x c hx; rw [view_emit, holderOf_closed] at hx; rw [view_emit, calls_closed]; exact hi.lentCall x c hx
-  · intro x c hx; rw [view_emit, calls_closed] at hx; rw [view_emit, holderOf_closed]; exact hi.startedLent x c hx
+  · intro x c st hx hh; rw [view_emit, calls_closed] at hx; rw [view_emit, holderOf_closed]
+    exact hi.startedLent x c st hx hh
+  · intro x hx; rw [view_emit, openFlag_closed] at hx; rw [view_emit, holderOf_closed]; exact hi.openHeld x hx
+  · intro x c hx hh
+    rw [view_emit, openFlag_closed] at hx; rw [view_emit, holderOf_closed] at hh
+    rw [view_emit, calls_closed]; exact hi.openConn x c hx hh
   · exact hi.full
   · exact hi.closedFlag
 
 theorem isAlive_after_closed (s : St) (sid : Nat) : isAlive (s.emit (.closed sid)).view sid = false := by
   rw [view_emit, isAlive_closed]; simp
 
-/-- a completed response reaches the caller of `c` (c is not holding a connection any more) -/
+/-- statuses whose caller has not been answered and that `done` may be applied to -/
+def CStat.answerable : CStat → Bool
+  | .arriving => true
+  | .pending => true
+  | .connecting _ => true
+  | .released => true
+  | _ => false
+
+theorem doneStat_holds {v : View} {c : Nat} {st : CStat} (h : v.calls[c]? = some st)
+    (ha : st.answerable = true) : (doneStat v c).holds = st.holds := by
+  unfold doneStat; rw [h]
+  cases st <;> simp_all [CStat.holds, CStat.answerable]
+
+theorem doneStat_not_pending (v : View) (c : Nat) : doneStat v c ≠ .pending := by
+  unfold doneStat; split <;> simp
+
+/-- a response reaches the caller of `c` -/
 theorem emit_done {cfg : Cfg} {s : St} {h : Option Nat} (hi : Inv cfg h s) (c : Nat) (out : Outcome)
-    (hc : ∀ sid, s.view.calls[c]? ≠ some (.started sid)) : Inv cfg h (s.emit (.done c out)) := by
+    {st0 : CStat} (hc : s.view.calls[c]? = some st0) (ha : st0.answerable = true) :
+    Inv cfg h (s.emit (.done c out)) := by
+  have hholds := doneStat_holds hc ha
   constructor
   · rw [view_emit, lentIds_done]; exact hi.size_eq
   · exact hi.size_le
@@ -550,28 +687,57 @@ theorem emit_done {cfg : Cfg} {s : St} {h : Option Nat} (hi : Inv cfg h s) (c : 
   · intro c' hc'
     rw [view_emit, calls_done]
     split
-    · right; rfl
+    · rename_i h1
+      right
+      have h0 := hi.wStat c' hc'
+      rw [h1.1] at h0
+      unfold doneStat
+      rcases h0 with h0 | h0 <;> rw [h0]
     · exact hi.wStat c' hc'
   · intro c' hc'
     rw [view_emit, calls_done] at hc'
     split at hc'
-    · simp at hc'
+    · injection hc' with hc'; exact absurd hc' (doneStat_not_pending _ _)
     · exact hi.pendW c' hc'
   · intro x c' hx
     rw [view_emit, holderOf_done] at hx
     rw [view_emit, calls_done]
-    have := hi.lentCall x c' hx
+    obtain ⟨st, h1, h2⟩ := hi.lentCall x c' hx
     split
-    · rename_i h1; rw [h1.1] at this; exact absurd this (hc x)
-    · exact this
-  · intro x c' hx
+    · rename_i h3
+      rw [h3.1, hc] at h1; injection h1 with h1; subst h1
+      exact ⟨_, rfl, by rw [hholds]; exact h2⟩
+    · exact ⟨st, h1, h2⟩
+  · intro x c' st hx hh
     rw [view_emit, calls_done] at hx
     rw [view_emit, holderOf_done]
     split at hx
-    · simp at hx
-    · exact hi.startedLent x c' hx
+    · rename_i h3
+      injection hx with hx; subst hx
+      rw [hholds] at hh
+      rw [h3.1]; exact hi.startedLent x c st0 hc hh
+    · exact hi.startedLent x c' st hx hh
+  · intro x hx; rw [view_emit, openFlag_done] at hx; rw [view_emit, holderOf_done]; exact hi.openHeld x hx
+  · intro x c' hx hh
+    rw [view_emit, openFlag_done] at hx; rw [view_emit, holderOf_done] at hh
+    rw [view_emit, calls_done]
+    have h0 := hi.openConn x c' hx hh
+    split
+    · rename_i h3
+      rw [h3.1] at h0
+      right
+      rcases h0 with h0 | h0
+      · unfold doneStat; rw [h0]
+      · rw [hc] at h0; injection h0 with h0; subst h0; simp [CStat.answerable] at ha
+    · exact h0
   · exact hi.full
   · exact hi.closedFlag
+
+theorem relStat_holds (v : View) (c : Nat) : (relStat v c).holds = none := by
+  unfold relStat; split <;> rfl
+
+theorem relStat_not_pending (v : View) (c : Nat) : relStat v c ≠ .pending := by
+  unfold relStat; split <;> simp
 
 /-- `_Release` entered for a connection that was lent to call `c` -/
 theorem emit_rel_lent {cfg : Cfg} {s : St} {sid c : Nat} (hi : Inv cfg none s)
@@ -579,9 +745,15 @@ theorem emit_rel_lent {cfg : Cfg} {s : St} {sid c : Nat} (hi : Inv cfg none s)
   have hlt := holderOf_lt hl
   have hnot : sid ∉ held s none := by
     intro hm; have := (hi.free sid hm).2; rw [hl] at this; simp at this
-  have hcs : s.view.calls[c]? = some (.started sid) := hi.lentCall sid c hl
+  obtain ⟨st0, hcs, hholds⟩ := hi.lentCall sid c hl
   have hclt : c < s.view.calls.length := by
     by_contra hc; simp at hc; simp [List.getElem?_eq_none hc] at hcs
+  -- no other connection is held by `c`
+  have hother : ∀ x, holderOf s.view x = some c → x = sid := by
+    intro x hx
+    obtain ⟨st, h1, h2⟩ := hi.lentCall x c hx
+    rw [hcs] at h1; injection h1 with h1; subst h1
+    rw [hholds] at h2; injection h2 with h2; exact h2.symm
   constructor
   · rw [view_emit]
     have h1 := lentIds_len_rel_lent s.view sid c hl
@@ -623,42 +795,65 @@ theorem emit_rel_lent {cfg : Cfg} {s : St} {sid c : Nat} (hi : Inv cfg none s)
       rw [hl] at h1
       have : c = c' := by injection h1.1
       subst this
-      rw [hcs] at h0; simp at h0
+      rw [hcs] at h0
+      rcases h0 with h0 | h0 <;> (injection h0 with h0; subst h0; simp [CStat.holds] at hholds)
     · exact h0
   · intro c' hc'
     rw [view_emit, calls_rel] at hc'
     split at hc'
-    · simp at hc'
+    · injection hc' with hc'; exact absurd hc' (relStat_not_pending _ _)
     · exact hi.pendW c' hc'
   · intro x c' hx
     rw [view_emit, holderOf_rel] at hx
     rw [view_emit, calls_rel]
     split at hx
     · simp at hx
-    · have h0 := hi.lentCall x c' hx
+    · rename_i hne
+      obtain ⟨st, h1, h2⟩ := hi.lentCall x c' hx
       split
-      · rename_i hne h1
-        rw [hl] at h1
-        have : c = c' := by injection h1.1
+      · rename_i h3
+        rw [hl] at h3
+        have : c = c' := by injection h3.1
         subst this
-        rw [hcs] at h0
-        injection h0 with h0; injection h0 with h0
-        exact absurd h0.symm hne
-      · exact h0
-  · intro x c' hx
+        exact absurd (hother x hx) hne
+      · exact ⟨st, h1, h2⟩
+  · intro x c' st hx hh
     rw [view_emit, calls_rel] at hx
     rw [view_emit, holderOf_rel]
     split at hx
-    · simp at hx
-    · have h0 := hi.startedLent x c' hx
+    · injection hx with hx; subst hx
+      rw [relStat_holds] at hh; simp at hh
+    · rename_i hne
+      have h0 := hi.startedLent x c' st hx hh
       split
-      · rename_i h1 h2
+      · rename_i h2
         subst h2
-        rw [hl] at h0 h1
-        exfalso; apply h1
+        rw [hl] at h0
         injection h0 with h0
         subst h0
-        exact ⟨rfl, hclt⟩
+        exact absurd ⟨hl, hclt⟩ hne
+      · exact h0
+  · intro x hx
+    rw [view_emit, openFlag_rel] at hx
+    rw [view_emit, holderOf_rel]
+    split at hx
+    · simp at hx
+    · rename_i hne; simp only [hne, if_false]; exact hi.openHeld x hx
+  · intro x c' hx hh
+    rw [view_emit, openFlag_rel] at hx
+    rw [view_emit, holderOf_rel] at hh
+    rw [view_emit, calls_rel]
+    split at hx
+    · simp at hx
+    · rename_i hne
+      simp only [hne, if_false] at hh
+      have h0 := hi.openConn x c' hx hh
+      split
+      · rename_i h3
+        rw [hl] at h3
+        have : c = c' := by injection h3.1
+        subst this
+        exact absurd (hother x hh) hne
       · exact h0
   · exact hi.full
   · exact hi.closedFlag
@@ -666,7 +861,9 @@ theorem emit_rel_lent {cfg : Cfg} {s : St} {sid c : Nat} (hi : Inv cfg none s)
 /-- the invariant only depends on the pointwise picture of the view and on the lists -/
 theorem inv_congr {cfg : Cfg} {s s' : St} {h : Option Nat} (hi : Inv cfg h s)
     (hl : lentIds s'.view = lentIds s.view) (hn : s'.view.sinks.length = s.view.sinks.length)
-    (hh : ∀ j : Nat, holderOf s'.view j = holderOf s.view j) (ha : ∀ j : Nat, isAlive s'.view j = isAlive s.view j)
+    (hh : ∀ j : Nat, holderOf s'.view j = holderOf s.view j)
+    (ha : ∀ j : Nat, isAlive s'.view j = true → isAlive s.view j = true ∨ (holderOf s.view j).isSome = true)
+    (ho : ∀ j : Nat, openFlag s'.view j = openFlag s.view j)
     (hc : ∀ j : Nat, s'.view.calls[j]? = s.view.calls[j]?)
     (h1 : s'.cache = s.cache) (h2 : s'.tasks = s.tasks) (h3 : s'.waiters = s.waiters)
     (h4 : s'.size = s.size) (h5 : s'.pstate = s.pstate) (h6 : s'.everClosed = s.everClosed) :
@@ -677,7 +874,11 @@ theorem inv_congr {cfg : Cfg} {s s' : St} {h : Option Nat} (hi : Inv cfg h s)
   · rw [h4]; exact hi.size_le
   · rw [hheld]; exact hi.nodup
   · intro x hx; rw [hheld] at hx; rw [hn, hh]; exact hi.free x hx
-  · intro x hx; rw [ha] at hx; rw [hh, hheld]; exact hi.aliveHeld x hx
+  · intro x hx
+    rw [hh, hheld]
+    rcases ha x hx with h7 | h7
+    · exact hi.aliveHeld x h7
+    · exact Or.inl h7
   · rw [h3, h1]; exact hi.cacheW
   · rw [h1]; exact hi.cacheMin
   · rw [h3]; exact hi.wq
@@ -685,9 +886,17 @@ theorem inv_congr {cfg : Cfg} {s s' : St} {h : Option Nat} (hi : Inv cfg h s)
   · intro c hc'; rw [h3] at hc'; rw [hc]; exact hi.wStat c hc'
   · intro c hc'; rw [hc] at hc'; rw [h3]; exact hi.pendW c hc'
   · intro x c hx; rw [hh] at hx; rw [hc]; exact hi.lentCall x c hx
-  · intro x c hx; rw [hc] at hx; rw [hh]; exact hi.startedLent x c hx
+  · intro x c st hx hst; rw [hc] at hx; rw [hh]; exact hi.startedLent x c st hx hst
+  · intro x hx; rw [ho] at hx; rw [hh]; exact hi.openHeld x hx
+  · intro x c hx hx2; rw [ho] at hx; rw [hh] at hx2; rw [hc]; exact hi.openConn x c hx hx2
   · rw [h6, h3, h4]; exact hi.full
   · rw [h5, h6]; exact hi.closedFlag
+
+theorem openFlag_false_of_free {cfg : Cfg} {s : St} {h : Option Nat} (hi : Inv cfg h s) {sid : Nat}
+    (hf : holderOf s.view sid = none) : openFlag s.view sid = false := by
+  by_contra hc
+  have := hi.openHeld sid (by simpa using hc)
+  rw [hf] at this; simp at this
 
 /-- `_Release` entered for a connection that is in hand and not lent -/
 theorem emit_rel_free {cfg : Cfg} {s : St} {sid : Nat} (hi : Inv cfg (some sid) s) :
@@ -699,7 +908,10 @@ theorem emit_rel_free {cfg : Cfg} {s : St} {sid : Nat} (hi : Inv cfg (some sid) 
   · intro j; rw [view_emit, holderOf_rel]; split
     · rename_i h; subst h; exact hfree.symm
     · rfl
-  · intro j; rw [view_emit, isAlive_rel]
+  · intro j hj; rw [view_emit, isAlive_rel] at hj; exact Or.inl hj
+  · intro j; rw [view_emit, openFlag_rel]; split
+    · rename_i h; subst h; exact (openFlag_false_of_free hi hfree).symm
+    · rfl
   · intro j; rw [view_emit, calls_rel]; simp [hfree]
   all_goals rfl
 
@@ -709,6 +921,9 @@ theorem emit_sent {cfg : Cfg} {s : St} {sid c : Nat} {w' : List Nat} (hi : Inv c
     (hsub : ∀ x, x ∈ w' ↔ (x ∈ s.waiters ∧ x ≠ c)) (hsorted : w'.Pairwise (· < ·))
     (hlen : w'.length ≤ s.waiters.length) :
     Inv cfg none (({ s with waiters := w' }).emit (.sent sid c)) := by
+  have hsentx : ∀ x, sentStat s.view x c = .started x := by
+    intro x; unfold sentStat; rcases hc with hc | hc <;> rw [hc]
+  have hsent := hsentx sid
   have hf := hi.free sid (by simp [held])
   have hclt : c < s.view.calls.length := by
     by_contra h; simp at h; simp [List.getElem?_eq_none h] at hc
@@ -717,6 +932,14 @@ theorem emit_sent {cfg : Cfg} {s : St} {sid c : Nat} {w' : List Nat} (hi : Inv c
     cases w' with
     | nil => exact h1 rfl
     | cons x xs => have := (hsub x).1 (by simp); rw [h2] at this; simp at this
+  have hnoholds : ∀ st, s.view.calls[c]? = some st → st.holds = none := by
+    intro st hst
+    rcases hc with hc | hc <;> (rw [hc] at hst; injection hst with hst; subst hst; rfl)
+  -- `c` holds no connection yet
+  have hcfree : ∀ x, holderOf s.view x ≠ some c := by
+    intro x hx
+    obtain ⟨st, h1, h2⟩ := hi.lentCall x c hx
+    rw [hnoholds st h1] at h2; simp at h2
   constructor
   · simp only [view_emit, view_with]
     rw [lentIds_len_sent _ _ _ hf.2 hf.1]
@@ -759,7 +982,7 @@ theorem emit_sent {cfg : Cfg} {s : St} {sid c : Nat} {w' : List Nat} (hi : Inv c
     simp only [view_emit, view_with, calls_sent] at hc'
     show c' ∈ w'
     split at hc'
-    · simp at hc'
+    · exfalso; revert hc'; rw [hsentx]; simp
     · rename_i hne
       have h1 := hi.pendW c' hc'
       refine (hsub c').2 ⟨h1, ?_⟩
@@ -769,21 +992,156 @@ theorem emit_sent {cfg : Cfg} {s : St} {sid c : Nat} {w' : List Nat} (hi : Inv c
     split at hx
     · rename_i h1
       injection hx with hx; subst hx
-      simp [hclt, h1.1]
-    · have h0 := hi.lentCall x c' hx
+      rw [if_pos ⟨rfl, hclt⟩, h1.1]
+      exact ⟨_, rfl, by rw [hsent]; rfl⟩
+    · obtain ⟨st, h0, h2⟩ := hi.lentCall x c' hx
       split
-      · rename_i h2; rw [h2.1] at h0; rcases hc with hc | hc <;> rw [hc] at h0 <;> simp at h0
-      · exact h0
-  · intro x c' hx
+      · rename_i h3; rw [h3.1] at hx; exact absurd hx (hcfree x)
+      · exact ⟨st, h0, h2⟩
+  · intro x c' st hx hh
     simp only [view_emit, view_with, holderOf_sent, calls_sent] at hx ⊢
     split at hx
     · rename_i h1
-      injection hx with hx; injection hx with hx; subst hx
+      injection hx with hx; subst hx
+      have : x = sid := by
+        have := (show (sentStat s.view sid c).holds = some sid from by rw [hsent]; rfl)
+        rw [this] at hh; injection hh with hh; exact hh.symm
+      subst this
       simp [hf.1, h1.1]
-    · have h0 := hi.startedLent x c' hx
+    · have h0 := hi.startedLent x c' st hx hh
       split
       · rename_i h2; rw [h2.1, hf.2] at h0; simp at h0
       · exact h0
+  · intro x hx
+    simp only [view_emit, view_with, openFlag_sent, holderOf_sent] at hx ⊢
+    by_cases hxs : x = sid
+    · simp [hxs, hf.1]
+    · simp only [hxs, false_and, if_false] at hx ⊢
+      exact hi.openHeld x hx
+  · intro x c' hx hh
+    simp only [view_emit, view_with, openFlag_sent, holderOf_sent, calls_sent] at hx hh ⊢
+    by_cases hxs : x = sid
+    · subst hxs; simp at hx
+    · simp only [hxs, false_and, if_false] at hx hh
+      have h0 := hi.openConn x c' hx hh
+      have : ¬ (c' = c ∧ c < s.view.calls.length) := by
+        rintro ⟨h1, _⟩; subst h1; exact hcfree x hh
+      rw [if_neg this]; exact h0
+  · intro he hw; exact hi.full he (hne_of hw)
+  · exact hi.closedFlag
+
+/-- the connection in hand is being opened for the arriving call `c`, whose greenlet blocks -/
+theorem emit_connecting {cfg : Cfg} {s : St} {sid c : Nat} {w' : List Nat} (hi : Inv cfg (some sid) s)
+    (hc : s.view.calls[c]? = some .arriving ∨ s.view.calls[c]? = some .pending)
+    (hsub : ∀ x, x ∈ w' ↔ (x ∈ s.waiters ∧ x ≠ c)) (hsorted : w'.Pairwise (· < ·))
+    (hlen : w'.length ≤ s.waiters.length) :
+    Inv cfg none (({ s with waiters := w' }).emit (.connecting sid c)) := by
+  have hf := hi.free sid (by simp [held])
+  have hclt : c < s.view.calls.length := by
+    by_contra h; simp at h; simp [List.getElem?_eq_none h] at hc
+  have hne_of : w' ≠ [] → s.waiters ≠ [] := by
+    intro h1 h2
+    cases w' with
+    | nil => exact h1 rfl
+    | cons x xs => have := (hsub x).1 (by simp); rw [h2] at this; simp at this
+  have hnoholds : ∀ st, s.view.calls[c]? = some st → st.holds = none := by
+    intro st hst
+    rcases hc with hc | hc <;> (rw [hc] at hst; injection hst with hst; subst hst; rfl)
+  -- `c` holds no connection yet
+  have hcfree : ∀ x, holderOf s.view x ≠ some c := by
+    intro x hx
+    obtain ⟨st, h1, h2⟩ := hi.lentCall x c hx
+    rw [hnoholds st h1] at h2; simp at h2
+  constructor
+  · simp only [view_emit, view_with]
+    rw [lentIds_len_connecting _ _ _ hf.2 hf.1]
+    have := hi.size_eq
+    simp only [held, emit_cache, emit_tasks] at this ⊢
+    simp at this ⊢
+    omega
+  · exact hi.size_le
+  · have := hi.nodup
+    simp only [held, emit_cache, emit_tasks] at this ⊢
+    simp [List.nodup_append] at this ⊢
+    try grind
+  · intro x hx
+    have hx' : x ∈ held s (some sid) := by
+      simp only [held, emit_cache, emit_tasks] at hx ⊢; simp at hx ⊢; tauto
+    have hne : x ≠ sid := by
+      intro he; subst he
+      have := hi.nodup
+      simp only [held, emit_cache, emit_tasks] at hx this
+      simp [List.nodup_append] at hx this
+      try grind
+    simp only [view_emit, view_with, holderOf_connecting, sinks_len_connecting]
+    simp [hne]; exact hi.free x hx'
+  · intro x hx
+    simp only [view_emit, view_with, isAlive_connecting, holderOf_connecting] at hx ⊢
+    by_cases hxs : x = sid
+    · left; simp [hxs, hf.1]
+    · rcases hi.aliveHeld x hx with h1 | h1
+      · left; simp [hxs, h1]
+      · right; simp only [held, emit_cache, emit_tasks] at h1 ⊢; simp at h1 ⊢; tauto
+  · intro hw; exact hi.cacheW (hne_of hw)
+  · exact hi.cacheMin
+  · have := hi.wq; show w'.length ≤ cfg.maxq; omega
+  · exact hsorted
+  · intro c' hc'
+    have hc'' := (hsub c').1 hc'
+    simp only [view_emit, view_with, calls_connecting]
+    simp [hc''.2]; exact hi.wStat c' hc''.1
+  · intro c' hc'
+    simp only [view_emit, view_with, calls_connecting] at hc'
+    show c' ∈ w'
+    split at hc'
+    · exfalso; revert hc'; simp
+    · rename_i hne
+      have h1 := hi.pendW c' hc'
+      refine (hsub c').2 ⟨h1, ?_⟩
+      intro he; exact hne ⟨he, hclt⟩
+  · intro x c' hx
+    simp only [view_emit, view_with, holderOf_connecting, calls_connecting] at hx ⊢
+    split at hx
+    · rename_i h1
+      injection hx with hx; subst hx
+      rw [if_pos ⟨rfl, hclt⟩, h1.1]
+      exact ⟨_, rfl, rfl⟩
+    · obtain ⟨st, h0, h2⟩ := hi.lentCall x c' hx
+      split
+      · rename_i h3; rw [h3.1] at hx; exact absurd hx (hcfree x)
+      · exact ⟨st, h0, h2⟩
+  · intro x c' st hx hh
+    simp only [view_emit, view_with, holderOf_connecting, calls_connecting] at hx ⊢
+    split at hx
+    · rename_i h1
+      injection hx with hx; subst hx
+      have : x = sid := by
+        have := (show (CStat.connecting sid).holds = some sid from rfl)
+        rw [this] at hh; injection hh with hh; exact hh.symm
+      subst this
+      simp [hf.1, h1.1]
+    · have h0 := hi.startedLent x c' st hx hh
+      split
+      · rename_i h2; rw [h2.1, hf.2] at h0; simp at h0
+      · exact h0
+  · intro x hx
+    simp only [view_emit, view_with, openFlag_connecting, holderOf_connecting] at hx ⊢
+    by_cases hxs : x = sid
+    · simp [hxs, hf.1]
+    · simp only [hxs, false_and, if_false] at hx ⊢
+      exact hi.openHeld x hx
+  · intro x c' hx hh
+    simp only [view_emit, view_with, openFlag_connecting, holderOf_connecting, calls_connecting] at hx hh ⊢
+    by_cases hxs : x = sid
+    · subst hxs
+      simp only [hf.1, and_self, if_true] at hh
+      injection hh with hh; subst hh
+      rw [if_pos ⟨rfl, hclt⟩]; left; rfl
+    · simp only [hxs, false_and, if_false] at hx hh
+      have h0 := hi.openConn x c' hx hh
+      have : ¬ (c' = c ∧ c < s.view.calls.length) := by
+        rintro ⟨h1, _⟩; subst h1; exact hcfree x hh
+      rw [if_neg this]; exact h0
   · intro he hw; exact hi.full he (hne_of hw)
   · exact hi.closedFlag
 
@@ -834,15 +1192,24 @@ theorem emit_queued {cfg : Cfg} {s : St} {c : Nat} (hi : Inv cfg none s)
     · simp; left; exact hi.pendW c' hc'
   · intro x c' hx
     simp only [view_emit, view_with, holderOf_queued, calls_queued] at hx ⊢
-    have h0 := hi.lentCall x c' hx
+    obtain ⟨st, h0, h2⟩ := hi.lentCall x c' hx
+    split
+    · rename_i h1; rw [h1.1, hc] at h0; injection h0 with h0; subst h0; simp [CStat.holds] at h2
+    · exact ⟨st, h0, h2⟩
+  · intro x c' st hx hh
+    simp only [view_emit, view_with, holderOf_queued, calls_queued] at hx ⊢
+    split at hx
+    · injection hx with hx; subst hx; simp [CStat.holds] at hh
+    · exact hi.startedLent x c' st hx hh
+  · intro x hx
+    simp only [view_emit, view_with, holderOf_queued, openFlag_queued] at hx ⊢
+    exact hi.openHeld x hx
+  · intro x c' hx hh
+    simp only [view_emit, view_with, holderOf_queued, openFlag_queued, calls_queued] at hx hh ⊢
+    have h0 := hi.openConn x c' hx hh
     split
     · rename_i h1; rw [h1.1, hc] at h0; simp at h0
     · exact h0
-  · intro x c' hx
-    simp only [view_emit, view_with, holderOf_queued, calls_queued] at hx ⊢
-    split at hx
-    · simp at hx
-    · exact hi.startedLent x c' hx
   · intro _ _; exact hfull
   · exact hi.closedFlag
 
@@ -888,9 +1255,15 @@ theorem emit_created {cfg : Cfg} {s : St} (hi : Inv cfg none s) (hlt : s.size < 
   · intro x c hx
     simp only [view_emit, view_with, holderOf_created, calls_created] at hx ⊢
     exact hi.lentCall x c hx
-  · intro x c hx
+  · intro x c st hx hh
     simp only [view_emit, view_with, holderOf_created, calls_created] at hx ⊢
-    exact hi.startedLent x c hx
+    exact hi.startedLent x c st hx hh
+  · intro x hx
+    simp only [view_emit, view_with, holderOf_created, openFlag_created] at hx ⊢
+    exact hi.openHeld x hx
+  · intro x c hx hh
+    simp only [view_emit, view_with, holderOf_created, openFlag_created, calls_created] at hx hh ⊢
+    exact hi.openConn x c hx hh
   · intro he hw; have := hi.full he hw; show cfg.max ≤ s.size + 1; omega
   · exact hi.closedFlag
 
@@ -904,6 +1277,7 @@ theorem inv_of_view_eq {cfg : Cfg} {s s' : St} {h : Option Nat} (hi : Inv cfg h 
     (h4 : s'.size = s.size) (h5 : s'.pstate = s.pstate) (h6 : s'.everClosed = s.everClosed) :
     Inv cfg h s' := by
   apply inv_congr hi <;> simp [hv, h1, h2, h3, h4, h5, h6]
+  intro j hj; exact Or.inl hj
 
 theorem view_of_nil {s : St} (h : s.evs = []) : s.view = s.base := by simp [St.view, h]
 
@@ -921,10 +1295,10 @@ theorem inv_preOp_die {cfg : Cfg} {s : St} (hi : Inv cfg none s) (he : s.evs = [
     exact view_of_nil (s := { s with base := s.base.apply (.closed sid) }) he
   all_goals rfl
 
-theorem inv_preOp_request {cfg : Cfg} {s : St} (hi : Inv cfg none s) (he : s.evs = []) (ok : Bool) :
-    Inv cfg none { s with base := preOp s.base (.request ok) } := by
+theorem inv_preOp_request {cfg : Cfg} {s : St} (hi : Inv cfg none s) (he : s.evs = []) (ok lat : Bool) :
+    Inv cfg none { s with base := preOp s.base (.request ok lat) } := by
   have hv : s.view = s.base := view_of_nil he
-  have hv' : ({ s with base := preOp s.base (.request ok) } : St).view =
+  have hv' : ({ s with base := preOp s.base (.request ok lat) } : St).view =
       { s.base with calls := s.base.calls ++ [.arriving] } := view_of_nil (s := { s with base := _ }) he
   have hcalls : ∀ j : Nat, j < s.base.calls.length →
       (s.base.calls ++ [CStat.arriving])[j]? = s.base.calls[j]? := by
@@ -940,8 +1314,8 @@ theorem inv_preOp_request {cfg : Cfg} {s : St} (hi : Inv cfg none s) (he : s.evs
       | succ m => simp [hjj] at hj
   have hlt_of : ∀ (j : Nat) (st : CStat), s.base.calls[j]? = some st → j < s.base.calls.length := by
     intro j st hj; by_contra h; simp at h; simp [List.getElem?_eq_none h] at hj
-  obtain ⟨f1, f2, f3, f4, f5, f6, f7, f8, f9, f10, f11, f12, f13, f14, f15⟩ := hi
-  simp only [hv] at f1 f4 f5 f10 f11 f12 f13
+  obtain ⟨f1, f2, f3, f4, f5, f6, f7, f8, f9, f10, f11, f12, f13, g1, g2, f14, f15⟩ := hi
+  simp only [hv] at f1 f4 f5 f10 f11 f12 f13 g1 g2
   constructor
   · rw [hv']; exact f1
   · exact f2
@@ -963,14 +1337,63 @@ theorem inv_preOp_request {cfg : Cfg} {s : St} (hi : Inv cfg none s) (he : s.evs
     exact f11 c (hcalls2 c _ (by simp) hc)
   · intro x c hx
     rw [hv'] at hx ⊢
-    have h0 := f12 x c hx
+    obtain ⟨st, h0, h2⟩ := f12 x c hx
+    refine ⟨st, ?_, h2⟩
     show (s.base.calls ++ [CStat.arriving])[c]? = _
     rw [hcalls c (hlt_of _ _ h0)]; exact h0
-  · intro x c hx
+  · intro x c st hx hh
     rw [hv'] at hx ⊢
-    exact f13 x c (hcalls2 c _ (by simp) hx)
+    exact f13 x c st (hcalls2 c _ (by intro h; subst h; simp [CStat.holds] at hh) hx) hh
+  · intro x hx; rw [hv'] at hx ⊢; exact g1 x hx
+  · intro x c hx hh
+    rw [hv'] at hx hh ⊢
+    have h0 := g2 x c hx hh
+    have : c < s.base.calls.length := by rcases h0 with h0 | h0 <;> exact hlt_of _ _ h0
+    show (s.base.calls ++ [CStat.arriving])[c]? = _ ∨ (s.base.calls ++ [CStat.arriving])[c]? = _
+    rw [hcalls c this]; exact h0
   · exact f14
   · exact f15
+
+/-- the pending `Open()` of `sid` completes: only the state of that connection changes -/
+theorem inv_preOp_opened {cfg : Cfg} {s : St} (hi : Inv cfg none s) (he : s.evs = []) (sid : Nat) (ok : Bool) :
+    Inv cfg none { s with base := preOp s.base (.opened sid ok) } := by
+  have hv : s.view = s.base := view_of_nil he
+  have hv' : ({ s with base := preOp s.base (.opened sid ok) } : St).view = preOp s.base (.opened sid ok) :=
+    view_of_nil (s := { s with base := _ }) he
+  have hsinks : ∀ j : Nat, (preOp s.base (.opened sid ok)).sinks[j]? =
+      (fun a : SinkSt => if sid = j then (if a.opening then { a with alive := ok } else a) else a) <$> s.base.sinks[j]? := by
+    intro j; simp only [preOp, List.getElem?_modify]
+  have hholder : ∀ j : Nat, holderOf (preOp s.base (.opened sid ok)) j = holderOf s.base j := by
+    intro j; simp only [holderOf, hsinks]
+    cases s.base.sinks[j]? with
+    | none => rfl
+    | some k => by_cases h1 : sid = j <;> by_cases h2 : k.opening <;> simp [h1, h2]
+  have hflag : ∀ j : Nat, openFlag (preOp s.base (.opened sid ok)) j = openFlag s.base j := by
+    intro j; simp only [openFlag, hsinks]
+    cases s.base.sinks[j]? with
+    | none => rfl
+    | some k => by_cases h1 : sid = j <;> by_cases h2 : k.opening <;> simp [h1, h2]
+  have halive : ∀ j : Nat, isAlive (preOp s.base (.opened sid ok)) j = true →
+      isAlive s.base j = true ∨ openFlag s.base j = true := by
+    intro j; simp only [isAlive, openFlag, hsinks]
+    cases s.base.sinks[j]? with
+    | none => simp
+    | some k => by_cases h1 : sid = j <;> by_cases h2 : k.opening <;> simp [h1, h2]
+  apply inv_congr hi
+  · rw [hv', hv, lentIds_def, lentIds_def]
+    have : (preOp s.base (.opened sid ok)).sinks.length = s.base.sinks.length := by simp [preOp]
+    rw [this]
+    apply ids_congr; intro i _; rw [hholder]
+  · rw [hv', hv]; simp [preOp]
+  · intro j; rw [hv', hv]; exact hholder j
+  · intro j hj
+    rw [hv'] at hj; rw [hv]
+    rcases halive j hj with h | h
+    · exact Or.inl h
+    · right; have := hi.openHeld j (by rw [hv]; exact h); rw [hv] at this; exact this
+  · intro j; rw [hv', hv]; exact hflag j
+  · intro j; rw [hv', hv]; rfl
+  all_goals rfl
 
 /-! ## consequences of the invariant -/
 
@@ -1086,8 +1509,8 @@ theorem evCheck_rel (cfg : Cfg) (hf gate : Bool) (v : View) (sid : Nat) :
     evCheck cfg hf gate v (.rel sid) = .ok := rfl
 
 theorem evCheck_done {cfg : Cfg} {hf gate : Bool} {v : View} {c : Nat} {st : CStat} (out : Outcome)
-    (h : v.calls[c]? = some st) (hne : st ≠ .done) : evCheck cfg hf gate v (.done c out) = .ok := by
-  cases st <;> simp_all [evCheck]
+    (h : v.calls[c]? = some st) (ha : st.answerable = true) : evCheck cfg hf gate v (.done c out) = .ok := by
+  cases st <;> simp_all [evCheck, CStat.answerable]
 
 theorem evCheck_queued {cfg : Cfg} {hf gate : Bool} {v : View} {c : Nat}
     (h : v.calls[c]? = some .arriving) : evCheck cfg hf gate v (.queued c) = .ok := by
@@ -1113,6 +1536,30 @@ theorem evCheck_sent {cfg : Cfg} {hf gate : Bool} {v : View} {sid c : Nat}
     cases gate with
     | true => intro _ h2; simp [h2 rfl rfl]
     | false => intro _ _; simp
+
+theorem evCheck_connecting {cfg : Cfg} {hf gate : Bool} {v : View} {sid c : Nat}
+    (hlt : sid < v.sinks.length) (hfree : holderOf v sid = none)
+    (hst : v.calls[c]? = some .arriving)
+    (h2 : hf = false → gate = true → pendingIds v = []) :
+    evCheck cfg hf gate v (.connecting sid c) = .ok := by
+  have hk : ∃ k, v.sinks[sid]? = some k ∧ k.lent = none := by
+    refine ⟨v.sinks[sid], by simp [hlt], ?_⟩
+    simpa [holderOf, hlt] using hfree
+  obtain ⟨k, hk1, hk2⟩ := hk
+  simp only [evCheck, hk1, hk2, hst]
+  revert h2
+  cases hf with
+  | true => intro _; simp
+  | false =>
+    cases gate with
+    | true => intro h2; simp [h2 rfl rfl]
+    | false => intro _; simp
+
+/-- the connect of `sid` for call `c` has ended: the request is forwarded -/
+theorem evCheck_sent_opened {cfg : Cfg} {hf gate : Bool} {v : View} {sid c : Nat} {k : SinkSt}
+    (hk : v.sinks[sid]? = some k) (ho : k.opening = true) (hl : k.lent = some c) :
+    evCheck cfg hf gate v (.sent sid c) = .ok := by
+  simp [evCheck, hk, ho, hl]
 
 theorem evCheck_created {cfg : Cfg} {hf gate : Bool} {v : View} {ok : Bool}
     (h : (aliveIds (v.apply (.created v.sinks.length ok))).length ≤ cfg.max) :
@@ -1194,8 +1641,9 @@ theorem frame_emit_done_pending (s : St) (c : Nat) (out : Outcome) (hc : s.view.
     · subst hcc
       have hclt : c' < s.view.calls.length := by
         by_contra h; simp at h; simp [List.getElem?_eq_none h] at hc
+      have hds : doneStat s.view c' = .done := by unfold doneStat; rw [hc]
       unfold pot doneCount
-      rw [emit_evs, List.countP_append, view_emit, calls_done, hc]
+      rw [emit_evs, List.countP_append, view_emit, calls_done, hc, hds]
       simp [isDoneEv, hclt]
     · apply Nat.le_of_eq
       apply pot_emit_other
@@ -1250,8 +1698,8 @@ theorem failWaiters_spec {cfg : Cfg} {hf gate : Bool} {h : Option Nat} (l : List
     · have hp' : s.view.calls[c]? = some .pending := hp
       simp only [hp, if_true]
       have h1 : MInv cfg hf gate h (s.emit (.done c .serviceClosed)) :=
-        ⟨emit_done hm.inv c _ (by intro sid; rw [hp']; simp),
-         evOk_emit hm.ev (evCheck_done _ hp' (by simp))⟩
+        ⟨emit_done hm.inv c _ hp' rfl,
+         evOk_emit hm.ev (evCheck_done _ hp' rfl)⟩
       obtain ⟨a1, a2, a3, a4, a5, a6, a7, a8, a9⟩ := ih _ h1 hnd'.2
       refine ⟨a1, Frame.trans (frame_emit_done_pending s c _ hp') a2, a3, a4, a5, a6, a7, a8, ?_⟩
       intro c' hc' hpc'
@@ -1429,7 +1877,7 @@ theorem dequeue_spec {cfg : Cfg} {hf gate : Bool} (l : List Nat) :
 theorem get_spec {cfg : Cfg} {hf gate : Bool} {s : St} (ok : Bool) (hm : MInv cfg hf gate none s) :
     Same s (get cfg s ok).1 ∧
     (match (get cfg s ok).2 with
-     | .sink sid => MInv cfg hf gate (some sid) (get cfg s ok).1 ∧
+     | .sink sid _ => MInv cfg hf gate (some sid) (get cfg s ok).1 ∧
                     (ok = true → isAlive (get cfg s ok).1.view sid = true) ∧
                     ((get cfg s ok).1.everClosed = false → (get cfg s ok).1.waiters = [])
      | .queue => MInv cfg hf gate none (get cfg s ok).1 ∧ (get cfg s ok).1.waiters.length + 1 ≤ cfg.maxq ∧
@@ -1574,12 +2022,14 @@ theorem clIdle_ok {cfg : Cfg} {s : St} (hi : Inv cfg none s) : clIdle cfg s.view
       cases hh : holderOf s.view x with
       | none => rw [hh] at h1; simp at h1
       | some c =>
-        have h2 := hi.lentCall x c hh
+        obtain ⟨st, h2, h4⟩ := hi.lentCall x c hh
         have h3 := List.mem_of_getElem? h2
         unfold allDone at hall
         rw [List.all_eq_true] at hall
         have := hall _ h3
-        simp at this
+        have hst : st = .done := by simpa using this
+        subst hst
+        simp [CStat.holds] at h4
     · simpa [held, ht'] using h1
   have : (aliveIds s.view).length ≤ s.cache.length := by
     apply length_le_of_nodup_subset (nodup_ids _ _)
@@ -1593,6 +2043,57 @@ theorem clIdle_ok {cfg : Cfg} {s : St} (hi : Inv cfg none s) : clIdle cfg s.view
 theorem minv_start {cfg : Cfg} {hf gate : Bool} {s : St} (hi : Inv cfg none s) (he : s.evs = []) :
     MInv cfg hf gate none s :=
   ⟨hi, by unfold EvOk; rw [he]; rfl⟩
+
+/-- `_Release` of a connection that call `c` holds (its pool frame has just been popped) -/
+theorem release_lent {cfg : Cfg} {hf gate : Bool} {s0 : St} {c sid : Nat}
+    (hm : MInv cfg hf gate none s0) (he : s0.evs = [])
+    (hl : holderOf s0.view sid = some c) :
+    MInv cfg hf gate none (release cfg s0 sid) ∧
+    (release cfg s0 sid).base = s0.base ∧
+    (∃ tail, (release cfg s0 sid).evs = .rel sid :: tail) ∧
+    (s0.pstate ≠ .closed → isAlive s0.view sid = false →
+      (release cfg s0 sid).pstate = .closed ∧
+      ∀ c' : Nat, s0.view.calls[c']? = some .pending →
+        Ev.done c' .serviceClosed ∈ (release cfg s0 sid).evs) ∧
+    ((release cfg s0 sid).everClosed = true →
+      s0.everClosed = true ∨ (release cfg s0 sid).pstate = .closed) ∧
+    (∀ c' : Nat, c' ≠ c → pot (release cfg s0 sid) c' ≤ pot s0 c') ∧
+    (release cfg s0 sid).view.calls[c]? = some (relStat s0.view c) := by
+  obtain ⟨st0, hcs, hholds⟩ := hm.inv.lentCall sid c hl
+  have hclt : c < s0.view.calls.length := by
+    by_contra h; simp at h; simp [List.getElem?_eq_none h] at hcs
+  have hm1 := minv_rel_lent hm hl
+  obtain ⟨a1, a2, a3, a4⟩ := releaseBody_spec hm1
+  rw [release_eq]
+  have hrel : (s0.emit (.rel sid)).view.calls[c]? = some (relStat s0.view c) := by
+    rw [view_emit, calls_rel]; simp [hl, hclt]
+  have hc1 := a2.keep c _ hrel (relStat_not_pending _ _)
+  obtain ⟨tail, htail⟩ := a2.evs
+  have hnotp : ∀ c', s0.view.calls[c']? = some .pending →
+      ¬ (holderOf s0.view sid = some c' ∧ c' < s0.view.calls.length) := by
+    rintro c' hc' ⟨h, _⟩
+    rw [hl] at h; injection h with h; subst h
+    rw [hcs] at hc'; injection hc' with hc'; subst hc'; simp [CStat.holds] at hholds
+  refine ⟨a1, ?_, ⟨tail, ?_⟩, ?_, ?_, ?_, hc1⟩
+  · rw [a2.base]; rfl
+  · rw [htail, emit_evs, he]; rfl
+  · intro hp hd
+    have := a3 (by simpa using hp) (by rw [view_emit, isAlive_rel]; exact hd)
+    refine ⟨this.1, ?_⟩
+    intro c' hc'
+    apply this.2 c'
+    rw [view_emit, calls_rel, if_neg (hnotp c' hc')]; exact hc'
+  · intro h
+    exact a2.flag h
+  · intro c' hne
+    have e2 : pot (s0.emit (.rel sid)) c' = pot s0 c' := by
+      apply pot_emit_other _ _ _ rfl
+      rw [view_emit, calls_rel]
+      have : ¬ (holderOf s0.view sid = some c' ∧ c' < s0.view.calls.length) := by
+        rintro ⟨h, _⟩; rw [hl] at h; injection h with h; exact hne h.symm
+      simp [this]
+    rw [← e2]
+    exact a2.pot c'
 
 /-- a response (or the time-out) drains the stack of a call that holds a connection -/
 theorem drain_started {cfg : Cfg} {hf gate : Bool} {s0 : St} {c sid : Nat} (out : Outcome)
@@ -1608,49 +2109,21 @@ theorem drain_started {cfg : Cfg} {hf gate : Bool} {s0 : St} {c sid : Nat} (out 
     (((release cfg s0 sid).emit (.done c out)).everClosed = true →
       s0.everClosed = true ∨ ((release cfg s0 sid).emit (.done c out)).pstate = .closed) ∧
     (∀ c' : Nat, c' ≠ c → pot ((release cfg s0 sid).emit (.done c out)) c' ≤ pot s0 c') := by
-  have hl : holderOf s0.view sid = some c := hm.inv.startedLent sid c hst
-  have hclt : c < s0.view.calls.length := by
-    by_contra h; simp at h; simp [List.getElem?_eq_none h] at hst
-  have hm1 := minv_rel_lent hm hl
-  obtain ⟨a1, a2, a3, a4⟩ := releaseBody_spec hm1
-  rw [release_eq]
-  have hrel : (s0.emit (.rel sid)).view.calls[c]? = some .released := by
-    rw [view_emit, calls_rel]; simp [hl, hclt]
-  have hc1 := a2.keep c _ hrel (by simp)
-  obtain ⟨tail, htail⟩ := a2.evs
-  refine ⟨⟨emit_done a1.inv c out (by intro x; rw [hc1]; simp), evOk_emit a1.ev (evCheck_done out hc1 (by simp))⟩,
-    ?_, ⟨tail ++ [.done c out], ?_⟩, ?_, ?_, ?_⟩
-  · rw [emit_base, a2.base]; rfl
-  · rw [emit_evs, htail, emit_evs, he]; simp
+  have hl : holderOf s0.view sid = some c := hm.inv.startedLent sid c _ hst rfl
+  obtain ⟨a1, a2, ⟨tail, a3⟩, a4, a5, a6, a7⟩ := release_lent (cfg := cfg) hm he hl
+  have hrs : relStat s0.view c = .released := by unfold relStat; rw [hst]
+  rw [hrs] at a7
+  refine ⟨⟨emit_done a1.inv c out a7 rfl, evOk_emit a1.ev (evCheck_done out a7 rfl)⟩,
+    by rw [emit_base, a2], ⟨tail ++ [.done c out], by rw [emit_evs, a3]; rfl⟩, ?_, a5, ?_⟩
   · intro hp hd
-    have := a3 (by simpa using hp) (by rw [view_emit, isAlive_rel]; exact hd)
-    refine ⟨this.1, ?_⟩
-    intro c' hc'
-    rw [emit_evs]
-    apply List.mem_append_left
-    apply this.2 c'
-    rw [view_emit, calls_rel]
-    have : ¬ (holderOf s0.view sid = some c' ∧ c' < s0.view.calls.length) := by
-      rintro ⟨h, _⟩
-      rw [hl] at h; injection h with h; subst h
-      rw [hst] at hc'; simp at hc'
-    simp [this]; exact hc'
-  · intro h
-    exact a2.flag h
+    obtain ⟨b1, b2⟩ := a4 hp hd
+    exact ⟨b1, fun c' hc' => by rw [emit_evs]; exact List.mem_append_left _ (b2 c' hc')⟩
   · intro c' hne
-    have e1 : pot ((releaseBody cfg (s0.emit (.rel sid)) sid).emit (.done c out)) c' =
-        pot (releaseBody cfg (s0.emit (.rel sid)) sid) c' := by
+    have e1 : pot ((release cfg s0 sid).emit (.done c out)) c' = pot (release cfg s0 sid) c' := by
       apply pot_emit_other
       · simp [isDoneEv]; exact fun h => hne h.symm
       · rw [view_emit, calls_done]; simp [hne]
-    have e2 : pot (s0.emit (.rel sid)) c' = pot s0 c' := by
-      apply pot_emit_other _ _ _ rfl
-      rw [view_emit, calls_rel]
-      have : ¬ (holderOf s0.view sid = some c' ∧ c' < s0.view.calls.length) := by
-        rintro ⟨h, _⟩; rw [hl] at h; injection h with h; exact hne h.symm
-      simp [this]
-    rw [e1, ← e2]
-    exact a2.pot c'
+    rw [e1]; exact a6 c' hne
 
 theorem code_eq_four (p : PState) : p.code = 4 ↔ p = .closed := by
   cases p <;> simp [PState.code]
@@ -1752,11 +2225,26 @@ theorem stepOk_drain {cfg : Cfg} {m : Mon} {s : St} (op : Op) (c : Nat) (out : O
     cases st with
     | pending =>
       simp only
-      refine ⟨⟨emit_done hi c out (by intro x; rw [hst']; simp),
-        evOk_emit hm.ev (evCheck_done out hst' (by simp))⟩, hpre.symm, hsur _, hhand _ _, ?_, Or.inl⟩
+      refine ⟨⟨emit_done hi c out hst' rfl,
+        evOk_emit hm.ev (evCheck_done out hst' rfl)⟩, hpre.symm, hsur _, hhand _ _, ?_, Or.inl⟩
       rw [hpre]
       apply clClose_of_not_dead _ hne
       simp [deadRelease, obsOf, hc.evs]
+    | connecting sid =>
+      simp only
+      refine ⟨⟨emit_done hi c out hst' rfl,
+        evOk_emit hm.ev (evCheck_done out hst' rfl)⟩, hpre.symm, hsur _, hhand _ _, ?_, Or.inl⟩
+      rw [hpre]
+      apply clClose_of_not_dead _ hne
+      simp [deadRelease, obsOf, hc.evs]
+    | orphan sid =>
+      simp only
+      refine ⟨hm, hpre.symm, hsur _, hhand _ _, ?_, Or.inl⟩
+      rw [hpre]; exact clClose_of_not_dead (deadRelease_nil _ _ _ _ hc.evs) hne
+    | zombie sid =>
+      simp only
+      refine ⟨hm, hpre.symm, hsur _, hhand _ _, ?_, Or.inl⟩
+      rw [hpre]; exact clClose_of_not_dead (deadRelease_nil _ _ _ _ hc.evs) hne
     | started sid =>
       simp only
       obtain ⟨a1, a2, ⟨tail, a3⟩, a4, a5, _⟩ := drain_started (cfg := cfg) out hm hc.evs hst'
@@ -1788,8 +2276,10 @@ theorem stepOk_respond {cfg : Cfg} {m : Mon} {s : St} (c : Nat) (hi : Inv cfg no
   show StepOk cfg m s (.respond c)
     (match s.stat c with
      | some (.started _) => drainCall cfg s c .reply
+     | some (.zombie sid) => release cfg s sid
      | _ => s)
   have hm : MInv cfg false (!m.closedSeen) none s := minv_start hi hc.evs
+  have hv : s.view = s.base := view_of_nil hc.evs
   have hnoop : StepOk cfg m s (.respond c) s :=
     ⟨hm, rfl, rfl, rfl, clClose_of_not_dead (deadRelease_nil _ _ _ _ hc.evs) (by simp), Or.inl⟩
   cases hst : s.stat c with
@@ -1797,6 +2287,17 @@ theorem stepOk_respond {cfg : Cfg} {m : Mon} {s : St} (c : Nat) (hi : Inv cfg no
   | some st =>
     cases st with
     | started sid => exact stepOk_drain (.respond c) c .reply (Or.inl rfl) hi hc
+    | zombie sid =>
+      -- the caller was answered long ago: the connection's answer only releases the connection
+      simp only
+      have hst' : s.view.calls[c]? = some (.zombie sid) := hst
+      have hl : holderOf s.view sid = some c := hi.startedLent sid c _ hst' rfl
+      obtain ⟨a1, a2, ⟨tail, a3⟩, a4, a5, _, _⟩ := release_lent (cfg := cfg) hm hc.evs hl
+      refine ⟨a1, a2, rfl, rfl, ?_, a5⟩
+      apply clClose_of_rel (op := .respond c) hc a3 (by simp)
+      intro hp hd
+      have := a4 hp (by rw [hv]; exact hd)
+      exact ⟨this.1, fun c' hc' => this.2 c' (by rw [hv]; exact hc')⟩
     | _ => exact hnoop
 
 theorem stepOk_run {cfg : Cfg} {m : Mon} {s : St} (hi : Inv cfg none s) (hc : Coupled s m) :
@@ -1855,44 +2356,49 @@ theorem stepOk_run {cfg : Cfg} {m : Mon} {s : St} (hi : Inv cfg none s) (hc : Co
         · left; rw [emit_everClosed, b5] at h1; exact h1
         · exact Or.inr h1
 
-theorem clSurplus_request_of (cfg : Cfg) (m : Mon) (ok : Bool) (o : Obs)
+theorem clSurplus_request_of (cfg : Cfg) (m : Mon) (ok lat : Bool) (o : Obs)
     (h : (pendingIds m.view).length < cfg.maxq ∨
          (∃ sid, Ev.sent sid m.view.calls.length ∈ o.evs) ∨
+         (∃ sid, Ev.connecting sid m.view.calls.length ∈ o.evs) ∨
          Ev.done m.view.calls.length .maxWaiters ∈ o.evs) :
-    clSurplus cfg m (.request ok) o = .ok := by
+    clSurplus cfg m (.request ok lat) o = .ok := by
   unfold clSurplus
   simp only
   rw [if_neg]
   intro hcond
   simp only [Bool.and_eq_true, decide_eq_true_eq, Bool.not_eq_true', List.any_eq_false] at hcond
   obtain ⟨⟨h1, h2⟩, h3⟩ := hcond
-  rcases h with h | ⟨sid, h⟩ | h
+  rcases h with h | ⟨sid, h⟩ | ⟨sid, h⟩ | h
   · omega
+  · have := h2 _ h; simp at this
   · have := h2 _ h; simp at this
   · simp [doneWith, h] at h3
 
-theorem stepOk_request {cfg : Cfg} {m : Mon} {s : St} (ok : Bool) (hi : Inv cfg none s) (hc : Coupled s m) :
-    StepOk cfg m s (.request ok) (stepSt cfg s (.request ok)) := by
-  have h0 : Inv cfg none { s with base := preOp s.base (.request ok) } := inv_preOp_request hi hc.evs ok
-  have hm0 : MInv cfg false (!m.closedSeen) none { s with base := preOp s.base (.request ok) } :=
+theorem stepOk_request {cfg : Cfg} {m : Mon} {s : St} (ok lat : Bool) (hi : Inv cfg none s)
+    (hc : Coupled s m) :
+    StepOk cfg m s (.request ok lat) (stepSt cfg s (.request ok lat)) := by
+  have h0 : Inv cfg none { s with base := preOp s.base (.request ok lat) } := inv_preOp_request hi hc.evs ok lat
+  have hm0 : MInv cfg false (!m.closedSeen) none { s with base := preOp s.base (.request ok lat) } :=
     minv_start h0 hc.evs
   have hv : s.view = s.base := view_of_nil hc.evs
-  have hv0 : ({ s with base := preOp s.base (.request ok) } : St).view =
+  have hv0 : ({ s with base := preOp s.base (.request ok lat) } : St).view =
       { s.base with calls := s.base.calls ++ [.arriving] } := view_of_nil (s := { s with base := _ }) hc.evs
-  have hcarr : ({ s with base := preOp s.base (.request ok) } : St).view.calls[s.base.calls.length]? =
+  have hcarr : ({ s with base := preOp s.base (.request ok lat) } : St).view.calls[s.base.calls.length]? =
       some .arriving := by rw [hv0]; simp
-  have hcnone : ({ s with base := preOp s.base (.request ok) } : St).view.calls[s.base.calls.length + 1]? =
+  have hcnone : ({ s with base := preOp s.base (.request ok lat) } : St).view.calls[s.base.calls.length + 1]? =
       none := by rw [hv0]; simp
   have hmc : m.view.calls.length = s.base.calls.length := by rw [hc.view]
   have hpend : (pendingIds m.view).length ≤ s.waiters.length := by
     rw [hc.view, ← hv]; exact pendingIds_le_waiters hi
-  obtain ⟨g1, g2⟩ := get_spec (cfg := cfg) ok hm0
-  show StepOk cfg m s (.request ok)
-    (match get cfg { s with base := preOp s.base (.request ok) } ok with
-     | (s1, .sink sid) => s1.emit (.sent sid s.base.calls.length)
+  obtain ⟨g1, g2⟩ := get_spec (cfg := cfg) (lat || ok) hm0
+  show StepOk cfg m s (.request ok lat)
+    (match get cfg { s with base := preOp s.base (.request ok lat) } (lat || ok) with
+     | (s1, .sink sid fresh) =>
+       if fresh && lat then s1.emit (.connecting sid s.base.calls.length)
+       else s1.emit (.sent sid s.base.calls.length)
      | (s1, .queue) => ({ s1 with waiters := s1.waiters ++ [s.base.calls.length] }).emit (.queued s.base.calls.length)
      | (s1, .fail) => s1.emit (.done s.base.calls.length .maxWaiters))
-  generalize hget : get cfg { s with base := preOp s.base (.request ok) } ok = r at g1 g2
+  generalize hget : get cfg { s with base := preOp s.base (.request ok lat) } (lat || ok) = r at g1 g2
   obtain ⟨s1, res⟩ := r
   simp only at g1 g2
   have hcarr1 : s1.view.calls[s.base.calls.length]? = some .arriving := by rw [g1.calls]; exact hcarr
@@ -1902,31 +2408,42 @@ theorem stepOk_request {cfg : Cfg} {m : Mon} {s : St} (ok : Bool) (hi : Inv cfg 
       by_contra h; simp at h; simp [List.getElem?_eq_none h] at hcarr1
     rw [List.getElem?_eq_none_iff] at h1
     omega
-  have hbase1 : s1.base = preOp s.base (.request ok) := g1.frame.base
+  have hbase1 : s1.base = preOp s.base (.request ok lat) := g1.frame.base
   have hflag : s1.everClosed = s.everClosed := g1.everClosed
-  have hnoclose : ∀ r' : St, clClose m (preOp s.base (.request ok)) (.request ok) (obsOf r') = .ok := by
+  have hnoclose : ∀ r' : St, clClose m (preOp s.base (.request ok lat)) (.request ok lat) (obsOf r') = .ok := by
     intro r'; exact clClose_of_not_dead (by simp [deadRelease]) (by simp)
   cases res with
-  | sink sid =>
+  | sink sid fresh =>
     simp only at g2 ⊢
     obtain ⟨k1, k2, k3⟩ := g2
     have hnotw : s.base.calls.length ∉ s1.waiters := by
       intro hmem
       rcases k1.inv.wStat _ hmem with h | h <;> rw [hcarr1] at h <;> simp at h
     have hf := k1.inv.free sid (by simp [held])
-    refine ⟨⟨?_, ?_⟩, hbase1, ?_, rfl, hnoclose _, ?_⟩
-    · exact emit_sent (w' := s1.waiters) k1.inv (Or.inl hcarr1)
-        (fun x => ⟨fun hx => ⟨hx, fun he => hnotw (he ▸ hx)⟩, fun hx => hx.1⟩) k1.inv.wSorted (Nat.le_refl _)
-    · apply evOk_emit k1.ev
-      apply evCheck_sent hf.1 hf.2 (Or.inl hcarr1) (fun h => by simp at h)
+    have hsub : ∀ x, x ∈ s1.waiters ↔ (x ∈ s1.waiters ∧ x ≠ s.base.calls.length) :=
+      fun x => ⟨fun hx => ⟨hx, fun he => hnotw (he ▸ hx)⟩, fun hx => hx.1⟩
+    have hgate : false = false → (!m.closedSeen) = true → pendingIds s1.view = [] := by
       intro _ hg
       have hcs : m.closedSeen = false := by simpa using hg
       have := k3 (by rw [hflag]; exact hc.closed hcs)
       exact pendingIds_nil_of_waiters_nil k1.inv this
-    · apply clSurplus_request_of
-      right; left
-      exact ⟨sid, by rw [hmc]; simp [obsOf]⟩
-    · intro h; left; rw [← hflag]; exact h
+    by_cases hfl : (fresh && lat) = true
+    · rw [if_pos hfl]
+      refine ⟨⟨?_, ?_⟩, hbase1, ?_, rfl, hnoclose _, ?_⟩
+      · exact emit_connecting (w' := s1.waiters) k1.inv (Or.inl hcarr1) hsub k1.inv.wSorted (Nat.le_refl _)
+      · exact evOk_emit k1.ev (evCheck_connecting hf.1 hf.2 hcarr1 hgate)
+      · apply clSurplus_request_of
+        right; right; left
+        exact ⟨sid, by rw [hmc]; simp [obsOf]⟩
+      · intro h; left; rw [← hflag]; exact h
+    · rw [if_neg hfl]
+      refine ⟨⟨?_, ?_⟩, hbase1, ?_, rfl, hnoclose _, ?_⟩
+      · exact emit_sent (w' := s1.waiters) k1.inv (Or.inl hcarr1) hsub k1.inv.wSorted (Nat.le_refl _)
+      · exact evOk_emit k1.ev (evCheck_sent (hf := false) hf.1 hf.2 (Or.inl hcarr1) (fun h => Bool.noConfusion h) hgate)
+      · apply clSurplus_request_of
+        right; left
+        exact ⟨sid, by rw [hmc]; simp [obsOf]⟩
+      · intro h; left; rw [← hflag]; exact h
   | queue =>
     simp only at g2 ⊢
     obtain ⟨k1, k2, k3, k4⟩ := g2
@@ -1941,10 +2458,10 @@ theorem stepOk_request {cfg : Cfg} {m : Mon} {s : St} (ok : Bool) (hi : Inv cfg 
     · intro h; left; rw [← hflag]; exact h
   | fail =>
     simp only at g2 ⊢
-    refine ⟨⟨emit_done g2.inv _ _ (by intro x; rw [hcarr1]; simp), ?_⟩, hbase1, ?_, rfl, hnoclose _, ?_⟩
-    · exact evOk_emit g2.ev (evCheck_done _ hcarr1 (by simp))
+    refine ⟨⟨emit_done g2.inv _ _ hcarr1 rfl, ?_⟩, hbase1, ?_, rfl, hnoclose _, ?_⟩
+    · exact evOk_emit g2.ev (evCheck_done _ hcarr1 rfl)
     · apply clSurplus_request_of
-      right; right
+      right; right; right
       rw [hmc]; simp [obsOf]
     · intro h; left; rw [← hflag]; exact h
 
@@ -1954,7 +2471,7 @@ theorem stepOk_openPool {cfg : Cfg} {m : Mon} {s : St} (hi : Inv cfg none s) (hc
   obtain ⟨g1, g2⟩ := get_spec (cfg := cfg) true hm0
   show StepOk cfg m s (.openPool true)
     (match get cfg s true with
-     | (s1, .sink sid) => { release cfg s1 sid with pstate := .opened }
+     | (s1, .sink sid _) => { release cfg s1 sid with pstate := .opened }
      | (s1, _) => { s1 with pstate := .opened })
   generalize hget : get cfg s true = r at g1 g2
   obtain ⟨s1, res⟩ := r
@@ -1987,10 +2504,128 @@ theorem stepOk_openPool {cfg : Cfg} {m : Mon} {s : St} (hi : Inv cfg none s) (hc
   | queue => exact hother g2.1
   | fail => exact hother g2
 
+theorem lentIds_sent_same (v : View) (sid c : Nat) (h : holderOf v sid = some c) :
+    lentIds (v.apply (.sent sid c)) = lentIds v := by
+  rw [lentIds_def, lentIds_def, sinks_len_sent]
+  apply ids_congr; intro i _; rw [holderOf_sent]
+  split
+  · rename_i h1; rw [h1.1, h]
+  · rfl
+
+/-- the connect of `sid`, which call `c`'s greenlet was blocked on, has ended -/
+theorem emit_sent_opened {cfg : Cfg} {s : St} {sid c : Nat} (hi : Inv cfg none s)
+    (ho : openFlag s.view sid = true) (hl : holderOf s.view sid = some c) :
+    Inv cfg none (s.emit (.sent sid c)) := by
+  have hlt := holderOf_lt hl
+  have hconn := hi.openConn sid c ho hl
+  have hclt : c < s.view.calls.length := by
+    by_contra h; simp at h; rcases hconn with h1 | h1 <;> simp [List.getElem?_eq_none h] at h1
+  have hholds : (sentStat s.view sid c).holds = some sid := by
+    unfold sentStat; rcases hconn with h1 | h1 <;> rw [h1] <;> rfl
+  have hnp : sentStat s.view sid c ≠ .pending := by unfold sentStat; split <;> simp
+  have hother : ∀ x, holderOf s.view x = some c → x = sid := by
+    intro x hx
+    obtain ⟨st, h1, h2⟩ := hi.lentCall x c hx
+    rcases hconn with h3 | h3 <;> (rw [h3] at h1; injection h1 with h1; subst h1; injection h2 with h2; exact h2.symm)
+  have hholder : ∀ j, holderOf (s.view.apply (.sent sid c)) j = holderOf s.view j := by
+    intro j; rw [holderOf_sent]; split
+    · rename_i h1; rw [h1.1, hl]
+    · rfl
+  constructor
+  · rw [view_emit, lentIds_sent_same _ _ _ hl]; exact hi.size_eq
+  · exact hi.size_le
+  · exact hi.nodup
+  · intro x hx; rw [view_emit, hholder, sinks_len_sent]; exact hi.free x hx
+  · intro x hx; rw [view_emit, isAlive_sent] at hx; rw [view_emit, hholder]; exact hi.aliveHeld x hx
+  · exact hi.cacheW
+  · exact hi.cacheMin
+  · exact hi.wq
+  · exact hi.wSorted
+  · intro c' hc'
+    rw [view_emit, calls_sent]
+    have h0 := hi.wStat c' hc'
+    split
+    · rename_i h1; rw [h1.1] at h0
+      rcases hconn with h3 | h3 <;> rcases h0 with h0 | h0 <;> rw [h3] at h0 <;> simp at h0
+    · exact h0
+  · intro c' hc'
+    rw [view_emit, calls_sent] at hc'
+    split at hc'
+    · injection hc' with hc'; exact absurd hc' hnp
+    · exact hi.pendW c' hc'
+  · intro x c' hx
+    rw [view_emit, hholder] at hx
+    rw [view_emit, calls_sent]
+    obtain ⟨st, h1, h2⟩ := hi.lentCall x c' hx
+    split
+    · rename_i h3
+      rw [h3.1] at hx
+      have := hother x hx; subst this
+      exact ⟨_, rfl, hholds⟩
+    · exact ⟨st, h1, h2⟩
+  · intro x c' st hx hh
+    rw [view_emit, calls_sent] at hx
+    rw [view_emit, hholder]
+    split at hx
+    · rename_i h3
+      injection hx with hx; subst hx
+      rw [hholds] at hh; injection hh with hh; subst hh
+      rw [h3.1]; exact hl
+    · exact hi.startedLent x c' st hx hh
+  · intro x hx
+    rw [view_emit, openFlag_sent] at hx
+    rw [view_emit, hholder]
+    split at hx
+    · simp at hx
+    · exact hi.openHeld x hx
+  · intro x c' hx hh
+    rw [view_emit, openFlag_sent] at hx
+    rw [view_emit, hholder] at hh
+    rw [view_emit, calls_sent]
+    split at hx
+    · simp at hx
+    · rename_i hne
+      have h0 := hi.openConn x c' hx hh
+      split
+      · rename_i h3; rw [h3.1] at hh; exact absurd (hother x hh) hne
+      · exact h0
+  · exact hi.full
+  · exact hi.closedFlag
+
+theorem stepOk_opened {cfg : Cfg} {m : Mon} {s : St} (sid : Nat) (ok : Bool) (hi : Inv cfg none s)
+    (hc : Coupled s m) : StepOk cfg m s (.opened sid ok) (stepSt cfg s (.opened sid ok)) := by
+  have h0 : Inv cfg none { s with base := preOp s.base (.opened sid ok) } := inv_preOp_opened hi hc.evs sid ok
+  have hm0 : MInv cfg false (!m.closedSeen) none { s with base := preOp s.base (.opened sid ok) } :=
+    minv_start h0 hc.evs
+  have hnoclose : ∀ r' : St, clClose m (preOp s.base (.opened sid ok)) (.opened sid ok) (obsOf r') = .ok := by
+    intro r'; exact clClose_of_not_dead (by simp [deadRelease]) (by simp)
+  have hnoop : StepOk cfg m s (.opened sid ok) { s with base := preOp s.base (.opened sid ok) } :=
+    ⟨hm0, rfl, rfl, rfl, hnoclose _, Or.inl⟩
+  show StepOk cfg m s (.opened sid ok) (openedSt { s with base := preOp s.base (.opened sid ok) } sid)
+  unfold openedSt
+  cases hk : ({ s with base := preOp s.base (.opened sid ok) } : St).view.sinks[sid]? with
+  | none => exact hnoop
+  | some k =>
+    simp only
+    by_cases hop : k.opening = true
+    · rw [if_pos hop]
+      cases hl : k.lent with
+      | none => exact hnoop
+      | some c =>
+        simp only
+        have hflag : openFlag ({ s with base := preOp s.base (.opened sid ok) } : St).view sid = true := by
+          simp [openFlag, hk, hop]
+        have hhold : holderOf ({ s with base := preOp s.base (.opened sid ok) } : St).view sid = some c := by
+          simp [holderOf, hk, hl]
+        exact ⟨⟨emit_sent_opened h0 hflag hhold, evOk_emit hm0.ev (evCheck_sent_opened hk hop hl)⟩,
+          rfl, rfl, rfl, hnoclose _, Or.inl⟩
+    · rw [if_neg hop]; exact hnoop
+
 theorem stepSt_ok {cfg : Cfg} {m : Mon} {s : St} (op : Op) (hi : Inv cfg none s) (hc : Coupled s m)
     (hop : opOk op = true) : StepOk cfg m s op (stepSt cfg s op) := by
   cases op with
-  | request ok => exact stepOk_request ok hi hc
+  | request ok lat => exact stepOk_request ok lat hi hc
+  | opened sid ok => exact stepOk_opened sid ok hi hc
   | respond c => exact stepOk_respond c hi hc
   | timeout c => exact stepOk_timeout c hi hc
   | die sid => exact stepOk_die sid hi hc
@@ -2083,7 +2718,7 @@ theorem inv_openPool {cfg : Cfg} {s : St} (ok : Bool) (hi : Inv cfg none s) (he 
   obtain ⟨g1, g2⟩ := get_spec (cfg := cfg) ok hm0
   show Inv cfg none
     (match get cfg s ok with
-     | (s1, .sink sid) => { release cfg s1 sid with pstate := .opened }
+     | (s1, .sink sid _) => { release cfg s1 sid with pstate := .opened }
      | (s1, _) => { s1 with pstate := .opened })
   generalize hget : get cfg s ok = r at g1 g2
   obtain ⟨s1, res⟩ := r
@@ -2156,52 +2791,60 @@ theorem run_handoff {cfg : Cfg} {s : St} {sid c : Nat} {rest : List Nat} (hi : I
       unfold St.view
       rw [hevs, hstep, b5]
       show ((s.base).apply (.sent sid c')).calls[c']? = _
-      rw [calls_sent]; simp [hclt]
+      rw [calls_sent, if_pos ⟨rfl, hclt⟩]; unfold sentStat; rw [hcp]
   · have : c ∈ pendingIds s.base := mem_pendingIds.2 hcp
     have b1' : pendingIds s.view = [] := b1
     rw [← hv, b1'] at this; simp at this
 
-/-- a fresh request is only started at once on a never-closed pool when nobody is waiting -/
-theorem request_no_overtake {cfg : Cfg} {s : St} (ok : Bool) {sid : Nat} (hi : Inv cfg none s)
-    (he : s.evs = []) (hnc : s.everClosed = false)
-    (hstarted : (step cfg s (.request ok)).1.base.calls[s.base.calls.length]? = some (.started sid)) :
+/-- a fresh request is only started at once (given a connection, or allowed to open one) on a
+    never-closed pool when nobody is waiting -/
+theorem request_no_overtake {cfg : Cfg} {s : St} (ok lat : Bool) {sid : Nat} {st : CStat}
+    (hi : Inv cfg none s) (he : s.evs = []) (hnc : s.everClosed = false)
+    (hstarted : (step cfg s (.request ok lat)).1.base.calls[s.base.calls.length]? = some st)
+    (hholds : st.holds = some sid) :
     pendingIds s.base = [] := by
-  have h0 : Inv cfg none { s with base := preOp s.base (.request ok) } := inv_preOp_request hi he ok
-  have hm0 : MInv cfg false false none { s with base := preOp s.base (.request ok) } := minv_start h0 he
+  have h0 : Inv cfg none { s with base := preOp s.base (.request ok lat) } := inv_preOp_request hi he ok lat
+  have hm0 : MInv cfg false false none { s with base := preOp s.base (.request ok lat) } := minv_start h0 he
   have hv : s.view = s.base := view_of_nil he
-  have hv0 : ({ s with base := preOp s.base (.request ok) } : St).view =
+  have hv0 : ({ s with base := preOp s.base (.request ok lat) } : St).view =
       { s.base with calls := s.base.calls ++ [.arriving] } := view_of_nil (s := { s with base := _ }) he
-  have hcarr : ({ s with base := preOp s.base (.request ok) } : St).view.calls[s.base.calls.length]? =
+  have hcarr : ({ s with base := preOp s.base (.request ok lat) } : St).view.calls[s.base.calls.length]? =
       some .arriving := by rw [hv0]; simp
-  obtain ⟨g1, g2⟩ := get_spec (cfg := cfg) ok hm0
-  have hstarted' : (stepSt cfg s (.request ok)).view.calls[s.base.calls.length]? = some (.started sid) :=
+  obtain ⟨g1, g2⟩ := get_spec (cfg := cfg) (lat || ok) hm0
+  have hstarted' : (stepSt cfg s (.request ok lat)).view.calls[s.base.calls.length]? = some st :=
     hstarted
-  have hstep : stepSt cfg s (.request ok) =
-    (match get cfg { s with base := preOp s.base (.request ok) } ok with
-     | (s1, .sink sid) => s1.emit (.sent sid s.base.calls.length)
+  have hstep : stepSt cfg s (.request ok lat) =
+    (match get cfg { s with base := preOp s.base (.request ok lat) } (lat || ok) with
+     | (s1, .sink sid fresh) =>
+       if fresh && lat then s1.emit (.connecting sid s.base.calls.length)
+       else s1.emit (.sent sid s.base.calls.length)
      | (s1, .queue) => ({ s1 with waiters := s1.waiters ++ [s.base.calls.length] }).emit (.queued s.base.calls.length)
      | (s1, .fail) => s1.emit (.done s.base.calls.length .maxWaiters)) := rfl
   rw [hstep] at hstarted'
-  generalize hget : get cfg { s with base := preOp s.base (.request ok) } ok = r at g1 g2 hstarted'
+  generalize hget : get cfg { s with base := preOp s.base (.request ok lat) } (lat || ok) = r at g1 g2 hstarted'
   obtain ⟨s1, res⟩ := r
   simp only at g1 g2 hstarted'
   have hcarr1 : s1.view.calls[s.base.calls.length]? = some .arriving := by rw [g1.calls]; exact hcarr
   have hclt : s.base.calls.length < s1.view.calls.length := by
     by_contra h; simp at h; simp [List.getElem?_eq_none h] at hcarr1
   cases res with
-  | sink sid' =>
+  | sink sid' fresh =>
     simp only at g2
     have hw : s1.waiters = [] := g2.2.2 (by rw [g1.everClosed]; exact hnc)
     have hw' : s.waiters = [] := by rw [← hw, g1.waiters]
     rw [← hv]; exact pendingIds_nil_of_waiters_nil hi hw'
   | queue =>
     simp only at hstarted'
-    rw [view_emit, view_with, calls_queued] at hstarted'
-    simp [hclt] at hstarted'
+    rw [view_emit, view_with, calls_queued, if_pos ⟨rfl, hclt⟩] at hstarted'
+    injection hstarted' with hstarted'
+    subst hstarted'; simp [CStat.holds] at hholds
   | fail =>
     simp only at hstarted'
-    rw [view_emit, calls_done] at hstarted'
-    simp [hclt] at hstarted'
+    rw [view_emit, calls_done, if_pos ⟨rfl, hclt⟩] at hstarted'
+    have hds : doneStat s1.view s.base.calls.length = .done := by unfold doneStat; rw [hcarr1]
+    rw [hds] at hstarted'
+    injection hstarted' with hstarted'
+    subst hstarted'; simp [CStat.holds] at hholds
 
 /-- a release with somebody waiting defers a hand-off of that connection -/
 theorem release_defers_handoff {cfg : Cfg} {s : St} {c sid : Nat} (hi : Inv cfg none s) (he : s.evs = [])
@@ -2218,6 +2861,7 @@ theorem release_defers_handoff {cfg : Cfg} {s : St} {c sid : Nat} (hi : Inv cfg 
   have h1 : stepSt cfg s (.respond c) = (release cfg s sid).emit (.done c .reply) := by
     show (match s.stat c with
       | some (.started _) => drainCall cfg s c .reply
+      | some (.zombie sid) => release cfg s sid
       | _ => s) = _
     rw [hst']
     simp only [drainCall, hst']
@@ -2343,6 +2987,7 @@ theorem dead_release_once {cfg : Cfg} {s : St} (hi : Inv cfg none s) (he : s.evs
   have h1 : stepSt cfg s (.respond c0) = (release cfg s sid).emit (.done c0 .reply) := by
     show (match s.stat c0 with
       | some (.started _) => drainCall cfg s c0 .reply
+      | some (.zombie sid) => release cfg s sid
       | _ => s) = _
     rw [hst'']
     simp only [drainCall, hst'']
